@@ -26,6 +26,11 @@ func read(c io.Reader) (data []byte, err error) {
 
 	data = make([]byte, l)
 	if _, err := io.ReadFull(c, data); err != nil {
+		if err == io.EOF {
+			// The stream ended right after the length prefix, i.e. inside a frame.
+			// Only an end of stream between frames is a clean EOF.
+			err = io.ErrUnexpectedEOF
+		}
 		return nil, err
 	}
 	return data, nil
